@@ -566,6 +566,7 @@ func init() {
 			"levels with identical canonical prompts are one class; the device is moved between ordinary levels only through the driver (so its cached level resolves prompts that several patterns accept); levels without escalate command are entered by setting the device's mode (before Open or by a back door) and need a prompt no other class accepts",
 			"generator preconditions checked by brute force with the definition's own patterns: the device's error line and every proper prefix of a canonical prompt are not accepted as a (different) prompt by the joined pattern; otherwise the session is inconclusive",
 			"the relation (level A's canonical prompt, other level B accepting it) of every shipped definition is pinned (= Appendix A 'also accepted by' plus the pairs inside classes of identical prompts); any change is reported. The overlaps themselves are a limitation of the definitions, not judged: a fresh session (empty cached level) opened on a device already in such a level takes it for the default desired level (observed and recorded per pinned overlap, see fresh_session_on_overlapping_level_witnesses)",
+			"load-order sequences (base-variant-base, variant-base, base-base on two hosts, variant-variant, variant-base-variant-base; by name for shipped variants, from bytes for generated ones) judge observable differences only: every result is re-compared with the independent reading after each later load, must keep its own host/transport/driver, and altering one result (levels, failure strings, steps, options, driver fields) must leave the others and fresh loads equal to the definition; a library-internal cache as such is not judged",
 			"generated variants define only non-empty sections; a section that is present but empty is outside the checked merge semantics",
 			"a timeout counts only if every generated byte had been delivered and the load canary is healthy",
 		},
